@@ -508,7 +508,7 @@ class World(object):
         cur, self.cur = self.cur, None
         if cur["writers"] - {actor}:
             raise core.MachineryError("step of %s made %s write" % (actor, sorted(cur["writers"] - {actor})))
-        base = {"t": "", "c": "", "d": "", "hd": {"k": "none", "i": 0, "p": "", "f": 0}, "tg": [], "note": [], "fault": "",
+        base = {"t": "", "c": "", "d": "", "hd": {"k": "none", "i": 0, "p": "", "f": 0}, "tg": [], "note": [], "fault": "", "j": 1,
                 "out": {"sent": cur["sent"], "shown": cur["shown"], "seen": cur["seen"], "leak": cur["leak"]}}
         base.update(rec)
         self.trace.append(base)
@@ -546,15 +546,16 @@ class World(object):
             rec = self._end({"t": "Process", "c": name, "hd": hd, "tg": tg, "note": note}, name)
         return rec
 
-    def do_deliver(self, name, fault=None):
+    def do_deliver(self, name, fault=None, j=1):
+        """Deliver the j-th (1-based) stanza queued for `name`."""
         a = self.acc(name)
-        node, meta = self.server.outq[name][0]
+        node, meta = self.server.outq[name][j - 1]
         hd = self.cls_in(node, meta)
         self._begin()
         try:
-            self.server.deliver(a, 0, fault)
+            self.server.deliver(a, j - 1, fault)
         finally:
-            rec = self._end({"t": "Deliver", "c": name, "hd": hd, "fault": fault or ""}, name)
+            rec = self._end({"t": "Deliver", "c": name, "hd": hd, "fault": fault or "", "j": j}, name)
         return rec
 
     def do_restart(self, name):
@@ -562,11 +563,11 @@ class World(object):
             raise core.MachineryError("restart while stanzas are in flight")
         self.ev("Restart", who=name)
         self.acc(name).boot()
-        self.trace.append({"t": "Restart", "c": name, "d": "", "hd": {"k": "none", "i": 0, "p": "", "f": 0}, "tg": [], "note": [], "fault": "",
+        self.trace.append({"t": "Restart", "c": name, "d": "", "hd": {"k": "none", "i": 0, "p": "", "f": 0}, "tg": [], "note": [], "fault": "", "j": 1,
                            "out": {"sent": [], "shown": [], "seen": [], "leak": 0}})
 
     def do_end(self):
-        self.trace.append({"t": "End", "c": "", "d": "", "hd": {"k": "none", "i": 0, "p": "", "f": 0}, "tg": [], "note": [], "fault": "",
+        self.trace.append({"t": "End", "c": "", "d": "", "hd": {"k": "none", "i": 0, "p": "", "f": 0}, "tg": [], "note": [], "fault": "", "j": 1,
                            "out": {"sent": [], "shown": [], "seen": [], "leak": 0}})
 
     def enabled(self):
@@ -579,13 +580,14 @@ class World(object):
                 out.append(("deliver", a.name))
         return out
 
-    def head(self, name):
+    def head(self, name, j=1):
         q = self.server.outq[name]
-        return self.cls_in(*q[0]) if q else None
+        return self.cls_in(*q[j - 1]) if len(q) >= j else None
 
-    def settle(self, choose=None, cap=1500, fault_for=None):
+    def settle(self, choose=None, cap=1500, fault_for=None, pick_j=None):
         """Run server steps until all queues are empty.  choose(enabled) picks the next step (default: first);
-        fault_for(account name, head stanza record) -> fault for the delivery about to happen."""
+        fault_for(account name, stanza record) -> fault for the delivery about to happen; pick_j(name, queue length) -> which queued
+        stanza is delivered (default 1: queue order)."""
         n = 0
         while True:
             en = self.enabled()
@@ -598,7 +600,8 @@ class World(object):
             if kind == "process":
                 self.do_process(name)
             else:
-                self.do_deliver(name, fault_for(name, self.head(name)) if fault_for else None)
+                j = pick_j(name, len(self.server.outq[name])) if pick_j else 1
+                self.do_deliver(name, fault_for(name, self.head(name, j)) if fault_for else None, j)
 
     def close(self):
         for a in self.accounts:
